@@ -16,20 +16,20 @@ import (
 
 // provSide is what the provider decided for one consumer.
 type provSide struct {
-	launchSet  map[string]int64           // S0
-	setByVsc   map[uint64]map[string]int64 // set carried by the packet with that id
-	lastSet    map[string]int64
-	wireSet    map[string]int64 // fold of the packets observed on the wire / in the pending queue
-	wireLastID uint64
-	created    map[uint64]bool // packet ids known to have been created (pending or sent)
+	launchSet   map[string]int64            // S0
+	setByVsc    map[uint64]map[string]int64 // set carried by the packet with that id
+	lastSet     map[string]int64
+	wireSet     map[string]int64 // fold of the packets observed on the wire / in the pending queue
+	wireLastID  uint64
+	created     map[uint64]bool // packet ids known to have been created (pending or sent)
 	lastEpochID uint64
-	stopped    bool
+	stopped     bool
 }
 
 // consSide is what a live consumer chain has done so far.
 type consSide struct {
-	lastID    uint64           // id of the latest VSC packet received
-	idxOrder  []uint64         // ids in order of adoption (for monotonicity)
+	lastID    uint64            // id of the latest VSC packet received
+	idxOrder  []uint64          // ids in order of adoption (for monotonicity)
 	heightMap map[uint64]uint64 // expected HeightToValsetUpdateID
 	batchNow  int
 }
